@@ -30,6 +30,8 @@ CFG = {
                     cxxflags='-O1 -g1 -DYACLIB_VERIF -D_GLIBCXX_DEBUG', std='20'),
     'fuzz-fib': dict(cxx='clang++', fault='FIBER', flags='CORO;ASAN',
                      cxxflags='-O1 -g1 -DYACLIB_VERIF -fsanitize=fuzzer-no-link', std='20'),
+    'fuzz-off': dict(cxx='clang++', fault='OFF', flags='CORO;ASAN',
+                     cxxflags='-O1 -g1 -DYACLIB_VERIF -fsanitize=fuzzer-no-link', std='20'),
 }
 
 ASAN = '-fsanitize=address -fsanitize-address-use-after-scope -fno-omit-frame-pointer'
